@@ -395,3 +395,41 @@ Section Reflect.
       eapply cp_dict; [exact G|exact Pm|exact Fp].
   Qed.
 End Reflect.
+
+(* ---- the computed reflection is one ---------------------------------------------------------------- *)
+
+Lemma map_opt_Forall2 : forall A B (f : A -> option B) (R : A -> B -> Prop),
+  (forall a b, f a = Some b -> R a b) -> forall l r, map_opt f l = Some r -> Forall2 R l r.
+Proof.
+  intros A B f R H. induction l as [|x t IH]; intros r E; cbn in E.
+  - injection E as <-. constructor.
+  - destruct (f x) as [b|] eqn:Ex; [|discriminate]. destruct (map_opt f t) as [bt|] eqn:Et; [|discriminate].
+    injection E as <-. constructor; [apply H; exact Ex|apply IH; reflexivity].
+Qed.
+
+Theorem reflect_sound : forall fuel ro h v r, reflect fuel ro h v = Some r -> reflects h v r.
+Proof.
+  induction fuel as [|f IH]; intros ro h v r E; [discriminate|]. cbn [reflect] in E.
+  destruct (reify v) as [r0|] eqn:Rv; [injection E as <-; apply rf_leaf; exact Rv|].
+  assert (P : forall es res,
+    map_opt (fun e : val * val => match reflect f ro h (fst e), reflect f ro h (snd e) with
+                                  | Some a, Some b => Some (a, b) | _, _ => None end) es = Some res ->
+    Forall2 (fun e re => reflects h (fst e) (fst re) /\ reflects h (snd e) (snd re)) es res).
+  { apply map_opt_Forall2. intros e re He.
+    destruct (reflect f ro h (fst e)) as [a|] eqn:Ea; [|discriminate].
+    destruct (reflect f ro h (snd e)) as [b|] eqn:Eb; [|discriminate]. injection He as <-.
+    split; cbn [fst snd]; eapply IH; eassumption. }
+  destruct v; try discriminate E.
+  - destruct (map_opt (reflect f ro h) l) as [rs|] eqn:El; [|discriminate]. injection E as <-.
+    apply rf_list. eapply map_opt_Forall2; [|exact El]. intros a b Hab. eapply IH; exact Hab.
+  - destruct (map_opt (reflect f ro h) l) as [rs|] eqn:El; [|discriminate]. injection E as <-.
+    apply rf_tuple. eapply map_opt_Forall2; [|exact El]. intros a b Hab. eapply IH; exact Hab.
+  - destruct (heap_get h id) as [[es|es]|] eqn:G; try discriminate.
+    destruct (map_opt _ (if ro then rev es else es)) as [res|] eqn:Ep; [|discriminate]. injection E as <-.
+    eapply rf_map; [exact G| |apply P; exact Ep]. destruct ro; [apply Permutation_rev|apply Permutation_refl].
+  - destruct (heap_get h id) as [[es|es]|] eqn:G; try discriminate.
+    destruct (map_opt _ (if ro then rev es else es)) as [res|] eqn:Ep; [|discriminate]. injection E as <-.
+    eapply rf_dict; [exact G| |apply P; exact Ep]. destruct ro; [apply Permutation_rev|apply Permutation_refl].
+  - destruct (map_opt (reflect f ro h) args) as [rs|] eqn:El; [|discriminate]. injection E as <-.
+    apply rf_call. eapply map_opt_Forall2; [|exact El]. intros a b Hab. eapply IH; exact Hab.
+Qed.
